@@ -268,10 +268,11 @@ func maxCommandLength(s []*Command) int {
 		return 0
 	}
 
-	ret := len(s[0].Name)
+	// the names are padded to one width: count characters, not bytes
+	ret := utf8.RuneCountInString(s[0].Name)
 
 	for _, v := range s[1:] {
-		l := len(v.Name)
+		l := utf8.RuneCountInString(v.Name)
 
 		if l > ret {
 			ret = l
@@ -490,7 +491,7 @@ func (p *Parser) WriteHelp(writer io.Writer) {
 			fmt.Fprintf(wr, "  %s", c.Name)
 
 			if len(c.ShortDescription) > 0 {
-				pad := strings.Repeat(" ", maxnamelen-len(c.Name))
+				pad := strings.Repeat(" ", maxnamelen-utf8.RuneCountInString(c.Name))
 				fmt.Fprintf(wr, "%s  %s", pad, c.ShortDescription)
 
 				if len(c.Aliases) > 0 {
